@@ -327,7 +327,11 @@ static void note_outcome(void) {
 }
 
 static int cap_is_expected; /* the 16-thread confirmation harness runs the default schedule only */
+static int harness_found_difference; /* a schedule with an outcome different from solo is already recorded for this harness */
 static void explore(const uint8_t *prefix, int plen) {
+    if (harness_found_difference) {
+        return; /* the first counterexample has the fewest deviations; further schedules add nothing */
+    }
     if (explore_budget == 0 || vh_deadline_hit()) {
         if (!cap_is_expected) {
             explore_capped = 1;
@@ -347,7 +351,9 @@ static void explore(const uint8_t *prefix, int plen) {
     }
     char how[96];
     snprintf(how, sizeof how, "schedule with %d forced choices (preemption bound %d)", plen, BOUND);
-    check_exec(x, how, 0);
+    if (check_exec(x, how, 0)) {
+        harness_found_difference = 1;
+    }
     note_outcome();
     sched_per_bound[BOUND]++;
     uint8_t *choices = malloc((size_t)np + 1);
@@ -430,6 +436,7 @@ static void run_harness(int nthr, int nops_each, int ops[][MAXOPS_PER_THREAD], i
     vs_set_switch_on_func_entry(0);
     /* 3. schedule enumeration with preemption bounds 0..max_bound */
     n_outcomes = 0;
+    harness_found_difference = 0;
     for (BOUND = 0; BOUND <= max_bound; BOUND++) {
         explore_budget = budget;
         explore(NULL, 0);
